@@ -875,6 +875,7 @@ package vanguard
 //@   requires opFresh(o) && transcoder != nil
 //@   step opSame(o)
 //@   ensures[C18] (err == nil) == o.isValid
+//@   ensures[C05] o.request.Header == old(o.request.Header) && hdrSameExcept(o.request.Header, "Content-Type", "Te", "Grpc-Encoding", "Grpc-Accept-Encoding", "Grpc-Timeout", "Connect-Content-Encoding", "Connect-Accept-Encoding", "Connect-Timeout-Ms", "Connect-Protocol-Version", "Content-Encoding", "Accept-Encoding", "Content-Length", "X-Server-Timeout")
 //@   ensures[C13] o.originalHeaders != nil ==> hdrEq(o.originalHeaders, old(o.request.Header)) && o.contentLen == old(o.request.ContentLength)
 //@   ensures[C13] o.originalHeaders == nil ==> o.request.ContentLength == old(o.request.ContentLength) && o.request.Proto == old(o.request.Proto)
 //@   ensures[C13] errIs(err, errNotFound) ==> o.originalHeaders != nil && o.request.Proto == old(o.request.Proto) && o.request.ProtoMajor == old(o.request.ProtoMajor) && o.request.ProtoMinor == old(o.request.ProtoMinor)
@@ -901,26 +902,32 @@ package vanguard
 // C02 / C05 / C12: protocol request headers (each extractor touches only the header map it is given)
 
 //@ func (grpcClientProtocol).extractProtocolRequestHeaders
+//@   ensures[C05] hdrSameExcept(headers, "Te", "Content-Type", "Grpc-Encoding", "Grpc-Accept-Encoding", "Grpc-Timeout")
 //@   requires headers != nil
 //@   ensures[C02] err == nil ==> !hdrHas(headers, "Te") && !hdrHas(headers, "Content-Type") && !hdrHas(headers, "Grpc-Encoding") && !hdrHas(headers, "Grpc-Accept-Encoding") && !hdrHas(headers, "Grpc-Timeout")
 //@   modifies mapobj(headers), #LIB0
 //@ func (grpcWebClientProtocol).extractProtocolRequestHeaders
+//@   ensures[C05] hdrSameExcept(headers, "Content-Type", "Grpc-Encoding", "Grpc-Accept-Encoding", "Grpc-Timeout")
 //@   requires headers != nil
 //@   ensures[C02] err == nil ==> !hdrHas(headers, "Content-Type") && !hdrHas(headers, "Grpc-Encoding") && !hdrHas(headers, "Grpc-Accept-Encoding") && !hdrHas(headers, "Grpc-Timeout")
 //@   modifies mapobj(headers), #LIB0
 //@ func (connectStreamClientProtocol).extractProtocolRequestHeaders
+//@   ensures[C05] hdrSameExcept(headers, "Content-Type", "Connect-Content-Encoding", "Connect-Accept-Encoding", "Connect-Timeout-Ms")
 //@   requires headers != nil
 //@   ensures[C02] err == nil ==> !hdrHas(headers, "Content-Type") && !hdrHas(headers, "Connect-Content-Encoding") && !hdrHas(headers, "Connect-Accept-Encoding") && !hdrHas(headers, "Connect-Timeout-Ms")
 //@   modifies mapobj(headers), #LIB0
 //@ func (connectUnaryPostClientProtocol).extractProtocolRequestHeaders
+//@   ensures[C05] hdrSameExcept(headers, "Content-Type", "Content-Encoding", "Accept-Encoding", "Connect-Protocol-Version", "Connect-Timeout-Ms")
 //@   requires headers != nil
 //@   ensures[C02] err == nil ==> !hdrHas(headers, "Content-Type") && !hdrHas(headers, "Content-Encoding") && !hdrHas(headers, "Accept-Encoding") && !hdrHas(headers, "Connect-Protocol-Version") && !hdrHas(headers, "Connect-Timeout-Ms")
 //@   modifies mapobj(headers), #LIB0
 //@ func (connectUnaryGetClientProtocol).extractProtocolRequestHeaders
+//@   ensures[C05] hdrSameExcept(headers, "Content-Type", "Content-Encoding", "Accept-Encoding", "Connect-Protocol-Version", "Connect-Timeout-Ms")
 //@   requires headers != nil && op != nil && op.request != nil && op.request.URL != nil
 //@   ensures[C02] err == nil ==> !hdrHas(headers, "Content-Type") && !hdrHas(headers, "Accept-Encoding") && !hdrHas(headers, "Connect-Protocol-Version") && !hdrHas(headers, "Connect-Timeout-Ms")
 //@   modifies mapobj(headers), op.queryVars, #LIB0
 //@ func (restClientProtocol).extractProtocolRequestHeaders
+//@   ensures[C05] hdrSameExcept(headers, "Content-Type", "Content-Encoding", "Accept-Encoding", "X-Server-Timeout")
 //@   requires headers != nil && op != nil && validConf(op.methodConf) && op.restTarget != nil
 //@   ensures[C02] err == nil ==> !hdrHas(headers, "Content-Type") && !hdrHas(headers, "Content-Encoding") && !hdrHas(headers, "Accept-Encoding")
 //@   modifies mapobj(headers), #LIB0
@@ -1049,3 +1056,4 @@ package vanguard
 //@   atcall[C19,C01] (vanguard.Codec).Unmarshal: arg(0) == op.client.codec
 //@   atcall[C19,C01] (*compressionPool).decompressLimit: arg(0) == op.client.reqCompression
 //@   ensures[C19] len(src) > 0 ==> r0 != nil
+
